@@ -17,6 +17,11 @@ package kadm
 
 //@ func CalculateGroupLagWithStartOffsets(group DescribedGroup, commit OffsetResponses, startOffsets ListedOffsets, endOffsets ListedOffsets) (l GroupLag)
 //@   prop C35
+//   coverage of the first block: when the walk over a member's assigned partitions of a topic ends, every one of
+//   them has an entry in that topic's map
+//@   loop 2 invariant -1 <= rangeindex && rangeindex < len(t.Partitions)
+//@   loop 2 invariant [assigned-so-far-have-entries] forall i in 0..rangeindex+1 :: in(lt, t.Partitions[i])
+//@   loop 2 exit [every-assigned-partition-has-an-entry] forall i in 0..len(t.Partitions) :: in(lt, t.Partitions[i])
 //@   site mapupdate GroupMemberLag#0 assert [err-iff] val.Err == nil <==>
 //@        (in(tend, key) && tend[key].Err == nil && ite(in(tcommit, key), tcommit[key].Err == nil, true))
 //@   site mapupdate GroupMemberLag#0 assert [lag-on-error] val.Err != nil ==> val.Lag == -1
